@@ -641,9 +641,11 @@ func comparatorIsTotal(less *ssa.Function) (ok bool, why string, decided bool) {
 		}
 		return atom{}, false
 	}
-	// collect projections
+	// collect projections; a comparison of an element with itself, or of two different projections of the
+	// two elements, is decided at once
 	projs := map[string]bool{}
 	undecided := false
+	degenerate := ""
 	eachInstr(less, func(in ssa.Instruction) {
 		v, isV := in.(ssa.Value)
 		if !isV {
@@ -651,8 +653,38 @@ func comparatorIsTotal(less *ssa.Function) (ok bool, why string, decided bool) {
 		}
 		if a, ok := atomOf(v); ok {
 			projs[a.proj] = true
+			return
+		}
+		var x, y ssa.Value
+		switch z := v.(type) {
+		case *ssa.BinOp:
+			switch z.Op {
+			case token.LSS, token.LEQ, token.GTR, token.GEQ, token.EQL, token.NEQ:
+				x, y = z.X, z.Y
+			}
+		case *ssa.Call:
+			if o := calleeObj(z); o != nil && len(z.Call.Args) == 2 && strings.HasSuffix(objPkgPath(o), "go-versions/versions") {
+				x, y = z.Call.Args[0], z.Call.Args[1]
+			}
+		}
+		if x == nil {
+			return
+		}
+		a, ok1 := shape(x, 0)
+		b, ok2 := shape(y, 0)
+		if !ok1 || !ok2 {
+			return
+		}
+		switch {
+		case a.side == b.side:
+			degenerate = "an element is compared with itself (both operands index the slice with the same parameter): the comparator answers the same for every pair, so nothing is ordered"
+		case a.proj != b.proj:
+			degenerate = "the two elements are compared through different projections (" + a.proj + " of one against " + b.proj + " of the other): that is not an ordering of the elements"
 		}
 	})
+	if degenerate != "" {
+		return false, degenerate, true
+	}
 	// what identifies an element may be more than the comparator looks at: two versions of equal
 	// precedence differ in their build metadata
 	eachInstr(less, func(in ssa.Instruction) {
